@@ -44,7 +44,7 @@ Pred(r) ==
     [] r.ev = "buy"     -> BuyTx(r.cr, r.c, r.p, r.d, r.f)
     [] r.ev = "adv"     -> AdvTx(r.cr, r.c, r.p, r.d)
     [] r.ev = "auto"    -> AutoTx(r.cr, r.c, r.f, r.p)
-    [] r.ev = "relay"   -> RelayTx(r.cr, r.c, r.d)
+    [] r.ev = "relay"   -> RelayTx(r.cr, r.c, r.d, r.f)
     [] r.ev = "drain"   -> DrainTx(r.cr, r.d)
     [] r.ev = "month"   -> IF r.ok \/ r.panic THEN OneBlock(Cur, now + 1, r.t) ELSE Cur
     [] OTHER            -> Blocks(Cur, now, tm, r.n)
@@ -145,7 +145,10 @@ ProjectsFollow == \A c \in Consumers : LET x == st.cs[c] IN (x.sub.on => x.nproj
 TimerArmed == \A c \in Consumers : LET x == st.cs[c]  y == prev.cs[c] IN
               /\ x.subn.on => (x.subn.exp \in ToSet(x.mt) /\ x.subn.exp > st.t)
               \* a (re)armed month timer expires at utils.NextMonth(block time)  (NextMonth.tla is its transcription)
-              /\ (NotReset /\ x.subn.on /\ (~y.subn.on \/ x.subn.exp # y.subn.exp)) => x.subn.exp = st.nm
+              \* (a step of several blocks re-arms at the block in which the old timer fired: between the two ends)
+              /\ (NotReset /\ x.subn.on /\ (~y.subn.on \/ x.subn.exp # y.subn.exp)) =>
+                    /\ prev.nm <= x.subn.exp /\ x.subn.exp <= st.nm
+                    /\ (IsTx(st) \/ st.ev = "month" \/ st.n = 1) => x.subn.exp = st.nm
 NoOtherPanic == ~(st.panic /\ st.pcls # "plan")
 \* transitions (prev -> st)
 FailedTxNoEffect ==
@@ -222,8 +225,9 @@ Proportional ==
             /\ st.mode = 0 => ProvDelta(prev, st, p) = ProvShare(prev, c.sblk, c.credit, total, p)
 PaidOnce ==
   HasPayout => LET c == Timer(prev, st) IN
-    \* the tracked cu that was paid is gone (superseded versions are left to the stale GC)
-    {j \in Keys(st, c.sblk) : st.tcu[j].latest} = {}
+    \* the tracked cu that was paid is gone (superseded versions are left to the stale GC; entries of a month whose
+    \* total is 0 are not paid and stay)
+    TotalCu(prev, c.sblk) > 0 => {j \in Keys(st, c.sblk) : st.tcu[j].latest} = {}
 ZeroCuMonth ==
   HasPayout => LET c == Timer(prev, st) IN
     TotalCu(prev, c.sblk) = 0 =>
